@@ -476,7 +476,7 @@ func genBigHistory(seed uint64, cfg cfgSpec, n int) history {
 // or buffer window holds (badger prefetches 100 items, the iterator channel buffers 10).
 // Every delivered record is compared with the model in full; the consumer looks at the
 // records after the stream has ended (buffer), with pauses (slow) and on receipt (prompt).
-func genWideHistory(seed uint64, cfg cfgSpec, no int) history {
+func genWideHistory(seed uint64, cfg cfgSpec, no int, longStall bool) history {
 	r := vlib.NewRand(seed, "C02/wide/"+cfg.label(), uint64(no))
 	n := r.Range(150, 400)
 	h := history{No: no}
@@ -525,6 +525,18 @@ func genWideHistory(seed uint64, cfg cfgSpec, no int) history {
 			op{K: "query", Q: &qSpec{Prefix: "w/0", Where: &cond{Op: "startswith", Field: "S", VS: func() *string { v := "name-of-0"; return &v }()}, Consume: "slow"}})
 	}
 	queries()
+	// stalling consumer: stops taking records for far longer than the executors' send
+	// timeout (1 s on hashmap, bbolt, fstree; 1 min on badger) while the iterator's buffer
+	// of 10 is full, then drains; k below and above the buffer size
+	stall := func(k, ms int) {
+		h.Ops = append(h.Ops, op{K: "query", Q: &qSpec{Prefix: vlib.Pick(r, "", "w/"), Consume: "stall", StallAfter: k, StallMs: ms}})
+	}
+	stall(r.Range(1, 8), r.Range(2000, 2800))
+	if cfg.Backend == "badger" && longStall {
+		stall(r.Range(12, 40), 65000)
+	} else {
+		stall(r.Range(12, 60), r.Range(2000, 3000))
+	}
 	// change, delete and expire a share of the records
 	for j := 0; j < n/8; j++ {
 		rs := mkRec(r.Intn(n), 1+j%3)
